@@ -45,6 +45,9 @@ class SourceIndex:
         raise Unsupported(f"cannot locate {qualname}")
 
     def find(self, qualname):
+        if "@" in qualname:          # 'pkg.Class@tag.method': a second typing of the same class (class-model variant): same source
+            import re
+            qualname = re.sub(r"@\w+", "", qualname)
         modname, cls, fn = self.split(qualname)
         tree, src, path = self.module_ast(modname)
         body = tree.body
